@@ -1,4 +1,5 @@
 import Cfdm.Lemmas.Settings
+import Cfdm.Lemmas.SettingsOld
 import Cfdm.Spec.Settings
 /-
 C20 — global settings changed for a call or a block are always restored.
@@ -480,10 +481,18 @@ theorem C20_tol_args_local (r a m : Nat) (s s' : State) (r' a' : Option Nat) :
   · simp [run, runWith, decorated, decoNew, Verbose.resolve, Verbose.toInt, frameOf]
 
 /-- Non-vacuity: an omitted tolerance *is* read from the global setting (2 + 7·2^-22 against 2
-is equal under atol = 2^-12, not under the default 2^-52), a given one is not. -/
+is equal under atol = 2^-12, not under the default 2^-52), a given one is not — and an explicit
+**zero** (tolerance number 8) is a given one: with loose globals (0.5) and operands differing by
+7·2^-5 the test with `atol=0, rtol=0` says "not equal", with nothing passed "equal"; conversely
+tight globals and a loose passed tolerance say "equal". -/
 example : eqResult none none 22 { State.init with atol := 4 } = true
     ∧ eqResult none none 22 State.init = false
-    ∧ eqResult (some 0) (some 0) 22 { State.init with atol := 4, rtol := 4 } = false := by decide
+    ∧ eqResult (some 0) (some 0) 22 { State.init with atol := 4, rtol := 4 } = false
+    ∧ eqResult (some 8) (some 8) 5 { State.init with atol := 7, rtol := 7 } = false
+    ∧ eqResult none none 5 { State.init with atol := 7, rtol := 7 } = true
+    ∧ eqResult (some 8) none 5 { State.init with atol := 7, rtol := 8 } = true
+    ∧ eqResult (some 8) (some 7) 5 { State.init with atol := 8, rtol := 8 } = true
+    ∧ tolUnits 8 = 0 := by decide
 
 /-! ### The decorator as it is in 1.11.2.0 violates the property (concrete witnesses) -/
 
@@ -514,5 +523,101 @@ theorem C20_old_verbose_zero_reenables_logging :
     (runOld (.seq (.set (.log (some (.str "disable")))) (.call (.int 0) .skip)) State.init).1.disable = 0
     ∧ (run (.seq (.set (.log (some (.str "disable")))) (.call (.int 0) .skip)) State.init).1.disable
         = critical := by decide
+
+/-! ### The decorator as it is in 1.11.2.0, under the hypothesis that excludes its three defects
+
+The patch above is proposed, not applied: the code under test keeps `decoOld`.  Full-strength
+statement (false for `decoOld`, see the four counter-examples above; true for `decoNew`,
+`C20_verbose_scoped`):
+
+    ∀ p, LogFree p → ∀ s, logState (runOld p s).1 = logState s
+
+What holds of the code as it is: the same conclusion for every tree, of any depth, that passes
+the decidable guard `guarded s.level none p` (`Spec/Settings.lean`), which excludes exactly
+* an invalid `verbose` anywhere (leaks the counter:  `C20_old_invalid_verbose_leaks_counter`),
+* a nested call whose verbosity is neither `None` nor the verbosity of the outermost call
+  (never undone: `C20_old_nested_verbose_not_restored`, `C20_old_equals_disables_logging`),
+* an outermost call with `verbose` = 0/False/"DISABLE" while the global level is DISABLE
+  (`C20_old_verbose_zero_reenables_logging`),
+started outside any decorated call (counter 0) in a state as `log_level` leaves it. -/
+
+/-- One call of the decorator *as coded* around an arbitrary computation `body` (returning or
+raising), outside any other decorated call: if `verbose` is valid, is not 0 under a global
+DISABLE, and the body leaves counter, level, root level and disable level as it found them
+(which is what nested calls with `verbose=None` or the same `verbose` do), then afterwards the
+counter is 0 again and level, disable level and effective root level are those before the call;
+outcome and settings are the body's. -/
+theorem C20_old_single_call_restores_partial (v : Verbose) (lv : Option Level)
+    (body : State → State × Outcome) (s : State)
+    (hres : v.resolve = .ok lv) (hz : ¬ (s.level = .DISABLE ∧ lv = some .DISABLE))
+    (hc : s.calls = 0) (hcons : Consistent s)
+    (hb : ∀ t, Inv s.level (some lv) t → Post (some lv) t (body t).1) :
+    (decorated decoOld v body s).1.calls = 0
+    ∧ obsLog (decorated decoOld v body s).1 = obsLog s
+    ∧ (s.level ≠ .DISABLE → logState (decorated decoOld v body s).1 = logState s)
+    ∧ ∃ t, Inv s.level (some lv) t ∧ (decorated decoOld v body s).2 = (body t).2
+        ∧ settings (decorated decoOld v body s).1 = settings (body t).1 := by
+  obtain ⟨⟨h1, h2, h3⟩, hex⟩ := old_top_call_post body s hres hz hc hcons hb
+  simp only at h3
+  have hs := consistent_same h3 hcons h2
+  refine ⟨h1.trans hc, ?_, fun hd => ?_, hex⟩
+  · rw [(consistent_iff _).mp h3, (consistent_iff _).mp hcons, h2]
+  · have hd0 : s.disable = 0 := (hcons.2 hd).1
+    simp only [logState, Prod.mk.injEq]
+    exact ⟨h2, hs.2 (hs.1.trans hd0), hs.1⟩
+
+/-- **Verbosity is call-scoped in the code as it is, on guarded trees.**  For every tree of
+decorated calls — any depth, opaque cfdm functions, raises, try blocks, equality tests,
+tolerance settings and blocks — that passes the guard, run with `decoOld` from a state with
+counter 0 that agrees with `log_level()`: the counter is 0 again, the global level, the disable
+level and the effective root level are those before, and exactly so (raw root level included)
+unless the global level is DISABLE.  (Induction on the tree: `oldNewSim`.) -/
+theorem C20_old_verbose_scoped_partial (p : Prog) (s : State)
+    (hg : guarded s.level none p = true) (hc : s.calls = 0) (hcons : Consistent s) :
+    (runOld p s).1.calls = 0
+    ∧ obsLog (runOld p s).1 = obsLog s
+    ∧ (s.level ≠ .DISABLE → logState (runOld p s).1 = logState s) := by
+  obtain ⟨_, _, ⟨h1, h2, h3⟩, _⟩ := oldNewSim s.level p none s s hg ⟨rfl, hc, hcons⟩ (rel_refl s)
+  simp only at h3
+  have hs := consistent_same h3 hcons h2
+  refine ⟨h1.trans hc, ?_, fun hd => ?_⟩
+  · simp only [runOld]
+    rw [(consistent_iff _).mp h3, (consistent_iff _).mp hcons, h2]
+  · have hd0 : s.disable = 0 := (hcons.2 hd).1
+    simp only [logState, Prod.mk.injEq, runOld]
+    exact ⟨h2, hs.2 (hs.1.trans hd0), hs.1⟩
+
+/-- On guarded trees the decorator as coded and the patched one are observationally the same:
+same outcome, same final settings and observable logging state, and the same observation after
+every step at every depth — so everything proved for `run` above transfers to the code as it is
+on those trees (and the correspondence stream compares the implementation with either). -/
+theorem C20_old_eq_new_on_guarded (p : Prog) (s : State)
+    (hg : guarded s.level none p = true) (hc : s.calls = 0) (hcons : Consistent s) :
+    fullTrace decoOld p s = fullTrace decoNew p s
+    ∧ (runOld p s).2 = (run p s).2
+    ∧ settings (runOld p s).1 = settings (run p s).1
+    ∧ obsLog (runOld p s).1 = obsLog (run p s).1 := by
+  obtain ⟨h1, h2, _, h4⟩ := oldNewSim s.level p none s s hg ⟨rfl, hc, hcons⟩ (rel_refl s)
+  refine ⟨?_, h1, h2.1, h2.2⟩
+  simp only [fullTrace]
+  rw [h4, h1, ev_of_rel _ h2]
+
+/-- Non-vacuity: a three-deep tree of the kind cfdm's own methods produce — the outer verbosity
+passed through (`verbose=verbose`), inner calls with `None`, an opaque cfdm function that
+raises, a raise inside a nested call, a try block, a tolerance block, then a call with
+`verbose=False` whose function compares with a hard-coded `verbose=0` — passes the guard under
+WARNING; each defect class is rejected by it. -/
+example : guarded .WARNING none
+    (.seq (.try_ (.call (.str "Detail") (.seq (.call (.int 3) (.seq (.real (.bool true) true (.int 3))
+                                                    (.call .none (.raise .KeyError))))
+                                           (.withSet (.atol (some (.val 4))) (.eq none (some 2) 20)))))
+          (.real (.bool false) false (.int 0))) = true := by decide
+example : State.init.calls = 0 ∧ Consistent State.init := by decide
+example : guarded .WARNING none (.call (.int 7) .skip) = false
+    ∧ guarded .WARNING none (.call .none (.call (.int 3) .skip)) = false
+    ∧ guarded .WARNING none (.call (.int 3) (.call (.int 1) .skip)) = false
+    ∧ guarded .WARNING none (.real .none false (.int 0)) = false
+    ∧ guarded .DISABLE none (.call (.int 0) .skip) = false
+    ∧ guarded .DISABLE none (.call (.int 3) (.call (.str "detail") .skip)) = true := by decide
 
 end Cfdm.Props.C20
